@@ -54,6 +54,7 @@ pub fn build_det(family: &str, rng: &mut Rng, tier: u32) -> Option<Built> {
         "mq_spmc" => Some(mq_spmc::build(rng, tier)),
         "condvar" => Some(condvar::build(rng, tier)),
         "barrier" => Some(barrier::build(rng, tier)),
+        "barrier_small" => Some(barrier::build_small(rng, tier)),
         "waitgroup" => Some(waitgroup::build(rng, tier)),
         "time_dur" => Some(time_dur::build(rng, tier)),
         "timeout_list" => Some(timeout_list::build(rng, tier)),
@@ -63,7 +64,7 @@ pub fn build_det(family: &str, rng: &mut Rng, tier: u32) -> Option<Built> {
 }
 
 pub fn det_families() -> Vec<&'static str> {
-    vec!["blocker_thr", "ch_spsc", "ch_mpmc", "ch_mpsc", "mutex", "mq_tl", "rwlock", "rwlock_reg", "sem", "syncflag", "mq_mpsc", "mq_spsc", "mq_spsc_ring", "mq_spmc", "condvar", "barrier", "waitgroup", "time_dur", "timeout_list"]
+    vec!["blocker_thr", "ch_spsc", "ch_mpmc", "ch_mpsc", "mutex", "mq_tl", "rwlock", "rwlock_reg", "sem", "syncflag", "mq_mpsc", "mq_spsc", "mq_spsc_ring", "mq_spmc", "condvar", "barrier", "barrier_small", "waitgroup", "time_dur", "timeout_list"]
 }
 
 pub mod live_park;
